@@ -983,7 +983,7 @@ pub fn suite_clifault(dir: &str, seed: u64, thorough: bool, st: &mut Stats) {
         let rotated = !single && i % 3 == 1;
         let kind = if rotated { "inplace" } else { *rng.pick(&["new", "inplace", "blockdev"]) };
         let mode = if rotated { "eio" } else { *rng.pick(&["eio", "eio", "kill"]) };
-        let when = if rotated { rng.range(1, 4) } else { 1 };
+        let when = if rotated { rng.range(1, 6) } else { 1 };
         let mut prior = if kind == "new" { vec![] } else if rotated { let k = src.len() / 3 + rng.below(200) as usize; let mut v = src[k..].to_vec(); v.extend_from_slice(&src[..k]); v } else { edit(&mut rng, &src) };
         if kind == "blockdev" && prior.len() < src.len() { prior.resize(src.len(), 0x33); }
         if kind != "new" { s.write("out.bin", &prior); }
@@ -994,7 +994,19 @@ pub fn suite_clifault(dir: &str, seed: u64, thorough: bool, st: &mut Stats) {
         args.push("a.cba".into()); args.push("out.bin".into());
         let env: Vec<(&str, &str)> = if kind == "blockdev" { vec![("BITA_VERIF_FAKE_BLOCK_DEV", "1")] } else { vec![] };
         let argv: Vec<&str> = args.iter().map(|x| x.as_str()).collect();
-        let (code1, _) = s.run("strace", &argv, None, &env);
+        // exactly ONE failing write, counted over the whole process (strace counts per thread, and the writes of a
+        // tokio file run on whatever thread of the blocking pool is free): through an LD_PRELOAD shim when it was built
+        let shim = std::env::var("FAULTSHIM_SO").ok().filter(|p| std::path::Path::new(p).exists());
+        let (code1, _) = match (&shim, rotated) {
+            (Some(so), true) => {
+                let n = format!("{}", when);
+                let mut env2: Vec<(&str, &str)> = env.clone();
+                env2.extend([("LD_PRELOAD", so.as_str()), ("FAULTSHIM_PATH", "/out.bin"), ("FAULTSHIM_N", n.as_str())]);
+                st.count("clifault/single-fault-shim");
+                s.bita(&["clone", "--seed-output", "a.cba", "out.bin"], None, &env2)
+            }
+            _ => s.run("strace", &argv, None, &env),
+        };
         let after1 = s.read("out.bin").unwrap_or_default();
         let wrote_ok = if kind == "blockdev" { after1.len() >= src.len() && after1[..src.len()] == src[..] } else { after1 == src };
         st.evaluations += 1;
